@@ -197,6 +197,10 @@ func (discH) Execute(c *Case, res *Result) {
 				delete(subs, op.Sub)
 				res.Probes["unsubscribe"]++
 				close(s.unsubCalled)
+				if i%2 == 0 {
+					s.cancel() // the way the cluster uses it: the subscriber's context ends, then Unsubscribe
+					res.Probes["unsubscribe_after_context_ended"]++
+				}
 				go func() {
 					hel.Unsubscribe(s.id)
 					s.mu.Lock()
@@ -218,6 +222,10 @@ func (discH) Execute(c *Case, res *Result) {
 					res.Probes["unsubscribe_at_the_same_moment"]++
 					close(s.unsubCalled)
 					s.unsubAt = time.Now()
+					if (i+k)%2 == 0 {
+						s.cancel()
+						res.Probes["unsubscribe_after_context_ended"]++
+					}
 					go func() {
 						hel.Unsubscribe(s.id)
 						s.mu.Lock()
